@@ -121,7 +121,7 @@ def make_body(spec, falsify=False):
         if getattr(ex, "nfresh", 0) > 6 * MAX_STEPS:  # (before the residual terms below are added)
             raise PathAbort("unwinding bound exceeded")
         if spec.get("twice"):
-            site["twice"] = True
+            site["twice"] = spec["twice"]
         if isinstance(d1, int) and ex.nlog2 < 2:
             return []          # single-step paths belong to the "none" partition
         if raised is not None:
@@ -291,14 +291,16 @@ def replay(harness, cex):
     candidates += [float(r) * (1 + k * 2.0 ** -40) for k in (1, 16, 256, 4096)]
     import math
     problems = []
+    tol_first = tol
     for angle in candidates:
         _STATE.reset()
+        tol = tol_first
         try:
             if spec.get("twice") == "near":
-                sp.get_angle_spec_from_float(angle, tol)
+                sp.get_angle_spec_from_float(angle, tol_first)
                 angle = angle + float(_frac(vals["delta"]))
             elif spec.get("twice"):
-                sp.get_angle_spec_from_float(angle, tol)
+                sp.get_angle_spec_from_float(angle, tol_first)
                 tol = float(_frac(vals["tol2"]))
             nds = sp.get_angle_spec_from_float(angle, tol)
         except Exception as e:  # noqa
